@@ -1133,3 +1133,53 @@ func (a *Analysis) ContextOpenDivergences(lookahead int) (out []OpenDivergence, 
 	}
 	return out, compared
 }
+
+// ---------- a comment before a regular expression ----------
+
+// PreludeCommentFailure: a configuration in which the byte '/' begins the Text lexeme of a regular expression (and an
+// ordinary letter does not begin a text: it is not a Description), but '#' is refused.
+type PreludeCommentFailure struct {
+	State, Stack, Trace string
+}
+
+// RegexPreludeCommentFailures: in every explored configuration that waits for the delimiter of a regular expression,
+// the comment sign starts a comment. Returns the failures and the number of such configurations.
+func (a *Analysis) RegexPreludeCommentFailures() (out []PreludeCommentFailure, preludes int) {
+	ex := a.ex
+	saveFinds := ex.finds
+	ex.finds = map[string]Finding{}
+	defer func() { ex.finds = saveFinds }()
+	begins := func(c Config, id int, b byte) (text, ok bool) {
+		for _, s := range ex.apply(c, id, c.St, int(ex.rep[b]), 0, 0) {
+			ok = true
+			for _, e := range s.evs {
+				if strings.HasPrefix(e, "TextBegin@") {
+					text = true
+				}
+			}
+		}
+		return text, ok
+	}
+	seenKey := map[string]bool{}
+	for id, c := range ex.order {
+		if len(c.Replay) > 0 || c.Open != "" {
+			continue
+		}
+		key := c.St + "|" + c.Stack
+		if seenKey[key] {
+			continue
+		}
+		seenKey[key] = true
+		if t, _ := begins(c, id, '/'); !t {
+			continue
+		}
+		if t, _ := begins(c, id, 'a'); t {
+			continue
+		}
+		preludes++
+		if _, ok := begins(c, id, '#'); !ok {
+			out = append(out, PreludeCommentFailure{State: c.St, Stack: c.Stack, Trace: ex.trace(id)})
+		}
+	}
+	return out, preludes
+}
